@@ -335,6 +335,83 @@ fn env_conversion(run: &Run) -> u64 {
     n
 }
 
+/// Supplement, *sampling* (labelled so in the evidence): covenants are executed by many validation threads at once, so
+/// "a deterministic function of bytecode, transaction and environment" includes "whatever the other threads are executing".
+/// Twelve threads run the same pool of signature-checking and hashing programs (tens of thousands of distinct operands,
+/// half of the signatures invalid by one flipped bit) in different orders; every result is compared with the reference
+/// interpreter's, computed beforehand on one thread.  Interleavings are free-running - this is not an exhaustive exploration.
+fn concurrent_executions(run: &Run, thorough: bool) {
+    use crate::refvm::RefVm;
+    use OpCode::*;
+    let n: u32 = if thorough { 40_000 } else { 8_000 };
+    let (pk, sk) = key(1);
+    let mut cases: Vec<(Vec<OpCode>, Option<RV>, &'static str)> = Vec::with_capacity(n as usize * 2);
+    for i in 0..n {
+        let msg = (i as u64).to_be_bytes().to_vec();
+        let sig: Vec<u8> = sk.sign(&msg).to_vec();
+        let mut bad = sig.clone();
+        bad[(i as usize) % 64] ^= 1 << (i % 8);
+        let chosen = if i % 2 == 0 { sig } else { bad };
+        cases.push((vec![PushB(chosen), PushB(pk.0.to_vec()), PushB(msg.clone()), SigEOk(32)], None, "sigeok"));
+        if i % 4 == 0 {
+            cases.push((vec![PushB(msg), Hash(64)], None, "hash"));
+        }
+    }
+    let empty = BTreeMap::new();
+    // reference verdicts, sequentially, by the reference interpreter alone
+    for c in cases.iter_mut() {
+        let mut vm = RefVm::new(c.0.clone(), empty.clone());
+        let mut ok = true;
+        while !vm.done() {
+            if vm.step().is_none() {
+                ok = false;
+                break;
+            }
+        }
+        c.1 = if ok { vm.stack.pop() } else { None };
+    }
+    let threads = 12usize;
+    let wrong = std::sync::atomic::AtomicU64::new(0);
+    let first: parking_lot::Mutex<Option<(usize, String)>> = parking_lot::Mutex::new(None);
+    let barrier = std::sync::Barrier::new(threads);
+    std::thread::scope(|s| {
+        for t in 0..threads {
+            let (cases, wrong, first, barrier) = (&cases, &wrong, &first, &barrier);
+            s.spawn(move || {
+                barrier.wait();
+                let len = cases.len();
+                // every thread walks the whole pool, from its own offset and with its own stride (odd strides are coprime to
+                // nothing in particular; two passes with different strides cover every case twice per thread)
+                for (pass, stride) in [(0usize, 1usize), (1, 7919)] {
+                    for j in 0..len {
+                        let i = (j * stride + t * (len / threads) + pass) % len;
+                        let c = &cases[i];
+                        let got = guard(|| Covenant::from_ops(&c.0).debug_execute(&[])).ok().flatten().map(|v| RV::from_real(&v));
+                        run.transition();
+                        run.validated();
+                        if got != c.1 {
+                            wrong.fetch_add(1, std::sync::atomic::Ordering::Relaxed);
+                            first.lock().get_or_insert((i, format!("{:?} (reference {:?})", got.map(|x| x.show()), c.1.as_ref().map(|x| x.show()))));
+                        }
+                    }
+                }
+            });
+        }
+    });
+    let w = wrong.load(std::sync::atomic::Ordering::Relaxed);
+    run.set("concurrent_executions", json!({"kind": "sampling of schedules (free-running threads), not exhaustive", "threads": threads, "distinct_programs": cases.len(), "executions": cases.len() * threads * 2, "wrong_results": w}));
+    if let Some((i, what)) = first.into_inner() {
+        let c = &cases[i];
+        run.violation(
+            "C10",
+            format!("concurrent-execution-differs/{}", c.2),
+            format!("{} of {} executions on {} concurrent threads gave a result other than the reference, e.g. [{}]: {}", w, cases.len() * threads * 2, threads, prog_str(&c.0), what),
+            json!({"program": c.0.iter().map(|o| o.to_string()).collect::<Vec<_>>(), "threads": threads}),
+        );
+    }
+    run.outcome(if w == 0 { "concurrent-executions:all-equal-the-reference" } else { "concurrent-executions:deviating" });
+}
+
 pub fn run(run: &Run) {
     let thorough = run.thorough();
     let hs = heaps();
@@ -404,6 +481,7 @@ pub fn run(run: &Run) {
         run.states_add(long_cases);
         run.set("long_string_programs", json!({"doublings": [15, 16, 17], "cases": long_cases}));
     }
+    concurrent_executions(run, thorough);
     let envs = env_conversion(run);
     run.states_add(envs);
     run.set("env_conversion_cases", json!(envs));
@@ -411,7 +489,7 @@ pub fn run(run: &Run) {
     run.sample(json!({"program": "loop 2 1; pushi 1", "expected": "pushes 1 twice"}));
     run.sample(json!({"op": "exp 7", "operands": ["int 256 (9 bits)", "int 2"], "expected": "fails: exponent has more than 8 significant bits"}));
     run.assume("reference interpreter harness/src/refvm.rs encodes DESIGN.md appendix C; shifts reduce the amount mod 256 (implementation-defined point)");
-    run.assume("interleavings are irrelevant: the interpreter is sequential");
+    run.assume("the interpreter is sequential; what concurrent executions share (process-wide memos) is only sampled (concurrent_executions), not explored");
 }
 
 pub fn replay(run: &Run, v: &serde_json::Value) {
